@@ -35,6 +35,24 @@ impl From<ResourceId> for Token {
     }
 }
 
+/// Verification hook: the poll token of a resource id (the private `From` conversion).
+#[cfg(feature = "verif-hooks")]
+pub fn verif_token_of(id: ResourceId) -> usize {
+    Token::from(id).0
+}
+
+/// Verification hook: the resource id of a poll token (the private `From` conversion).
+#[cfg(feature = "verif-hooks")]
+pub fn verif_id_of_token(token: usize) -> ResourceId {
+    ResourceId::from(Token(token))
+}
+
+/// Verification hook: the token reserved for the waker.
+#[cfg(feature = "verif-hooks")]
+pub fn verif_waker_token() -> usize {
+    Poll::WAKER_TOKEN.0
+}
+
 pub struct Poll {
     mio_poll: MioPoll,
     events: Events,
